@@ -472,4 +472,9 @@ EXPLANATION = (
     'C13.CONST (decided): lookup spacing constants. TC bit / splitting: C14. Not decided: behaviour over all cache contents and '
     'relative timings [X].'
 )
+EXPLANATION_ADDENDUM = (
+    ' C13.HISTORY also requires what the history is consulted with and records to be the known-answer selection listed in the query, and the responder to record every QM question it can answer. C13.SPLIT (decided): the TC decision table of DNSOutgoing.packets, unicast queries included.'
+)
+EXPLANATION = EXPLANATION + EXPLANATION_ADDENDUM
+
 RULES = [known, history, split, qufirst, const]
